@@ -16,6 +16,8 @@ import (
 	"github.com/ipfs/go-cid"
 	cidlink "github.com/ipld/go-ipld-prime/linking/cid"
 	"github.com/ipni/go-libipni/dagsync"
+	"github.com/libp2p/go-libp2p"
+	"github.com/libp2p/go-libp2p/core/host"
 	"github.com/libp2p/go-libp2p/core/peer"
 
 	"verifharness/internal/chain"
@@ -99,11 +101,21 @@ func runCase(tc *tcase, pub *chain.Pub) (ob observed) {
 	} else {
 		opts = append(opts, dagsync.EntriesDepthLimit(int64(c.SubDepth)))
 	}
-	sub, err := dagsync.NewSubscriber(nil, dst.LinkSystem(), opts...)
+	var subHost host.Host
+	if pub.Host != nil { // stream transport: the subscriber needs a libp2p host of its own
+		var herr error
+		if subHost, herr = libp2p.New(libp2p.NoListenAddrs); herr != nil {
+			ob.Err = "subscriber host: " + herr.Error()
+			return
+		}
+		defer subHost.Close()
+	}
+	sub, err := dagsync.NewSubscriber(subHost, dst.LinkSystem(), opts...)
 	if err != nil {
 		ob.Err = "new subscriber: " + err.Error()
 		return
 	}
+	defer sub.Close()
 	if c.Latest0 != 0 {
 		sub.SetLatestSync(pub.ID, ch.Cid(c.Latest0))
 	}
@@ -244,8 +256,9 @@ func Run(args []string) *rep.Report {
 	si, sn := rep.ParseShard(*shard)
 	r := rep.New()
 	pubs := map[string]*chain.Pub{}
-	getPub := func(kind string, plain bool) (*chain.Pub, error) {
-		k := fmt.Sprintf("%s/%v", kind, plain)
+	getPub := func(kind string, mode int) (*chain.Pub, error) {
+		plain := mode == 0
+		k := fmt.Sprintf("%s/%d", kind, mode)
 		if p, ok := pubs[k]; ok {
 			return p, nil
 		}
@@ -257,7 +270,12 @@ func Run(args []string) *rep.Report {
 		if err != nil {
 			return nil, err
 		}
-		p, err := chain.NewPub(ch, "c01-pub-"+k, plain)
+		var p *chain.Pub
+		if mode == 2 {
+			p, err = chain.NewPubStream(ch, "c01-pub-"+k)
+		} else {
+			p, err = chain.NewPub(ch, "c01-pub-"+k, plain)
+		}
 		if err != nil {
 			return nil, err
 		}
@@ -280,13 +298,14 @@ func Run(args []string) *rep.Report {
 		if err := json.Unmarshal(line, tc); err != nil {
 			return err
 		}
-		plain := (idx / *sample)%2 == 0
-		pub, err := getPub(tc.Cfg.Kind, plain)
+		// transport: plain HTTP / HTTP discovered as libp2p-HTTP / HTTP over libp2p streams, in rotation within each shard
+		mode := ((idx / *sample) / sn) % 3
+		pub, err := getPub(tc.Cfg.Kind, mode)
 		if err != nil {
 			return err
 		}
 		ob := runCase(tc, pub)
-		ob.Mode = map[bool]string{true: "plain-http", false: "libp2p-http"}[plain]
+		ob.Mode = []string{"plain-http", "libp2p-http", "libp2p-stream"}[mode]
 		modes[ob.Mode]++
 		r.Eval(len(tc.Reported) > 1 || tc.Segmented)
 		if idx%2003 == 0 {
